@@ -33,17 +33,27 @@ theorem abs_agrees (x : Rat) : Generated.Decimal.abs x = Position.abs x := by
   · have : 0 ≤ x := by grind
     simp [h, this]
 
+/-- Shape-independent: unfold *everything generated for the group* (`gen_position`: the listed kernels and whatever
+auxiliary functions the translator found by lookup, under whatever names), the model's definitions and `sideOf`, then
+let `grind` decide (field arithmetic, the zero tests, the sign of `abs`). Nothing depends on whether the source writes an
+early `return` or `if`/`else`, in which order the disjoint `Side` arms come, or which `let`s are hoisted / renamed. -/
+local macro "position_agree" : tactic => `(tactic|
+  first
+  | rfl
+  | (simp only [gen_position, sideOf, Position.calculatePriceEntryAverage, Position.approximateRemainingExitFees,
+      Position.calculatePnlUnrealised, Position.calculatePnlRealised, abs_agrees]; done)
+  | (simp only [gen_position, sideOf, Position.calculatePriceEntryAverage, Position.approximateRemainingExitFees,
+      Position.calculatePnlUnrealised, Position.calculatePnlRealised, abs_agrees]; grind))
+
 /-- `calculate_price_entry_average` (source) = `Position.calculatePriceEntryAverage` (model). -/
 theorem calculate_price_entry_average_agrees (currentAvg currentQtyAbs tradePrice tradeQtyAbs : Rat) :
     Generated.calculate_price_entry_average currentAvg currentQtyAbs tradePrice tradeQtyAbs
-      = Position.calculatePriceEntryAverage currentAvg currentQtyAbs tradePrice tradeQtyAbs := by
-  simp only [Generated.calculate_price_entry_average, Position.calculatePriceEntryAverage] <;> grind
+      = Position.calculatePriceEntryAverage currentAvg currentQtyAbs tradePrice tradeQtyAbs := by position_agree
 
 /-- `approximate_remaining_exit_fees` = `Position.approximateRemainingExitFees`. -/
 theorem approximate_remaining_exit_fees_agrees (quantityAbs quantityAbsMax feesEnter : Rat) :
     Generated.approximate_remaining_exit_fees quantityAbs quantityAbsMax feesEnter
-      = Position.approximateRemainingExitFees quantityAbs quantityAbsMax feesEnter := by
-  simp only [Generated.approximate_remaining_exit_fees, Position.approximateRemainingExitFees] <;> grind
+      = Position.approximateRemainingExitFees quantityAbs quantityAbsMax feesEnter := by position_agree
 
 /-- `calculate_pnl_unrealised` = `Position.calculatePnlUnrealised` (both sides). -/
 theorem calculate_pnl_unrealised_agrees (side : Position.Side)
@@ -52,9 +62,7 @@ theorem calculate_pnl_unrealised_agrees (side : Position.Side)
         feesEnter price
       = Position.calculatePnlUnrealised side priceEntryAverage quantityAbs quantityAbsMax feesEnter
           price := by
-  cases side <;>
-    simp only [sideOf, Generated.calculate_pnl_unrealised, Position.calculatePnlUnrealised,
-      approximate_remaining_exit_fees_agrees] <;> grind
+  cases side <;> position_agree
 
 /-- `calculate_pnl_realised` = `Position.calculatePnlRealised` (both sides, any sign of the closed
 quantity). -/
@@ -63,8 +71,7 @@ theorem calculate_pnl_realised_agrees (side : Position.Side)
     Generated.calculate_pnl_realised (sideOf side) priceEntryAverage closedQuantity closedPrice
         closedFee
       = Position.calculatePnlRealised side priceEntryAverage closedQuantity closedPrice closedFee := by
-  cases side <;>
-    simp only [sideOf, Generated.calculate_pnl_realised, Position.calculatePnlRealised, abs_agrees] <;> grind
+  cases side <;> position_agree
 
 /-- All position kernels at once (what `Position::update_from_trade` and
 `Position::update_pnl_unrealised` are built from). -/
